@@ -3,7 +3,7 @@
    loop ranges / swap indices of transpose_vec) are the definitions GENERATED from /repo/src by tools/gen/grid.py. *)
 From Coq Require Import String QArith Qreals.
 From Coq Require Import List Arith Bool Lia Reals Lra Permutation.
-From SpdVerif Require Import Base.GridOps Gen.Grid Gen.Ranges Model.Grid Proofs.C14_iter Proofs.C14_steps Proofs.C14_spaces Proofs.C14_transpose Proofs.C14_qr Proofs.C14_ranges.
+From SpdVerif Require Import Base.GridOps Gen.Grid Gen.Ranges Model.Grid Proofs.C14_iter Proofs.C14_steps Proofs.C14_spaces Proofs.C14_transpose Proofs.C14_qr Proofs.C14_ranges Model.C15_Float Proofs.C15_float.
 Local Close Scope Q_scope.
 Import ListNotations.
 
@@ -152,6 +152,18 @@ Theorem C14_model_Q_is_R :
      steps2d_value Rops (Q2R x0) (Q2R x1) nx (Q2R y0) (Q2R y1) ny k).
 Proof. exact (conj steps_value_Q2R steps2d_value_Q2R). Qed.
 
+(* the few-ulp clause, PROVED: the float evaluation of the generated Steps::value (the same generated term instantiated at
+   operations rounded to nearest-even) is within 4 u max(|start|,|end|), u = 2^-53, of the exact value, for 2 <= n, 0 <= i <= n-1,
+   n-1 < 2^53 (integers exact).  First for FLX-53 (binary64 with unbounded exponent: no overflow / underflow), then for
+   binary64 = FLT(-1074,53) under the explicit guard that the exact arguments of the four roundings are zero or normal
+   (>= 2^-1022); overflow is outside the model. *)
+Theorem C14_steps_value_float_partial : forall (s e : R) (n i : nat), 2 <= n -> i <= n - 1 -> (INR (n - 1) < 9007199254740992)%R ->
+  (Rabs (steps_value FXops s e n i - steps_value Rops s e n i) <= 4 * u53 * Mx s e)%R /\
+  (steps_value_guard s e n i -> (Rabs (steps_value F64ops s e n i - steps_value Rops s e n i) <= 4 * u53 * Mx s e)%R).
+Proof.
+  exact (fun s e n i Hn Hi Hd => conj (steps_value_float_bound s e n i Hn Hi Hd) (steps_value_binary64_bound s e n i Hn Hi Hd)).
+Qed.
+
 (* non-vacuity *)
 Example C14_nonvacuous_space : ascending (fst (mk_space 1 2 3 1 2 3)) /\ nonzero_axes (mk_space 1 2 3 1 2 3).
 Proof. unfold ascending, nonzero_axes, mk_space; cbn. repeat split; lra. Qed.
@@ -181,3 +193,4 @@ Print Assumptions C14_transpose.
 Print Assumptions C14_transpose_ragged.
 Print Assumptions C14_range_table.
 Print Assumptions C14_model_Q_is_R.
+Print Assumptions C14_steps_value_float_partial.
